@@ -14,17 +14,26 @@ import (
 type Module struct {
 	Name    string
 	Members starlark.StringDict
+	frozen  bool
 }
 
 var _ starlark.HasAttrs = (*Module)(nil)
 
 func (m *Module) Attr(name string) (starlark.Value, error) { return m.Members[name], nil }
 func (m *Module) AttrNames() []string                      { return m.Members.Keys() }
-func (m *Module) Freeze()                                  { m.Members.Freeze() }
 func (m *Module) Hash() (uint32, error)                    { return 0, fmt.Errorf("unhashable: %s", m.Type()) }
 func (m *Module) String() string                           { return fmt.Sprintf("<module %q>", m.Name) }
 func (m *Module) Truth() starlark.Bool                     { return true }
 func (m *Module) Type() string                             { return "module" }
+
+// Freeze marks the module before descending: a module may be
+// reachable from its own members.
+func (m *Module) Freeze() {
+	if !m.frozen {
+		m.frozen = true
+		m.Members.Freeze()
+	}
+}
 
 // MakeModule may be used as the implementation of a Starlark built-in
 // function, module(name, **kwargs). It returns a new module with the
@@ -39,5 +48,5 @@ func MakeModule(thread *starlark.Thread, b *starlark.Builtin, args starlark.Tupl
 		k := string(kwarg[0].(starlark.String))
 		members[k] = kwarg[1]
 	}
-	return &Module{name, members}, nil
+	return &Module{Name: name, Members: members}, nil
 }
